@@ -41,7 +41,7 @@ CODES = {
 GO_TIMEOUT = 1500
 
 IOPS = [None, 0, -1, 1, 2, 1000000, "1%", "50%", "100%", "150%", "abc", "-10%", "5"]
-DURS = [None, "0s", "-5s", "1s", "60s", "600s", "87600h"]
+DURS = [None, "0s", "-5s", "1s", "60s", "600s", "87600h", "500ms", "1500ms", "1ns"]
 INTS = [None, 0, -1, 1, 3, 250, 2147483647]
 BOOLS = [None, True, False]
 MODES = [None, "auto", "manual", "bogus"]
